@@ -93,7 +93,19 @@ def _ctx_with_real_set(*a, **kw):
         return _orig_ctx(*a, **kw)
 
 
+def fresh_state():
+    """Paths of one case run in the same process: restore every module-level
+    container of the package (registries, caches a change may have added,
+    lru_caches) to its state at the first run, so that a path never sees what
+    an earlier path left behind."""
+    from vf.props import c15
+    with NoTracing():
+        c15.snapshot()
+        c15.reset()
+
+
 def _bind(native, traced_printers):
+    fresh_state()
     if native or traced_printers:
         PP.pretty_python_value = _orig_ppv
         PP.PrettyContext = _orig_ctx
